@@ -17,9 +17,9 @@ def sweep_bounds(tier):
 
 
 @obligation("sweep.step")
-def sweep_step(e, tier="quick", usage=False, others=None, crowd=0):
+def sweep_step(e, tier="quick", usage=False, others=None, crowd=0, relaxed=False):
     bd = sweep_bounds(tier)
-    x = build(e, crowd=crowd, **usage_cfg(e, usage), acting=["none"],
+    x = build(e, crowd=crowd, **usage_cfg(e, usage), acting=["none"], relaxed=relaxed,
               others=others or ["none", "sub0s0", "sub1s0", "idle0"], **bd)
     w, pre = x.w, x.pre
     E_ = TAP.CHANNEL_EXPIRATION_TIME
@@ -76,7 +76,11 @@ def sweep_step(e, tier="quick", usage=False, others=None, crowd=0):
     A["C01.no_new_msg"] = len(new_rows(pre, post, "messages")) == 0
     x.a_shape = "none"
     x.c = w.conns[0] if w.conns else None
-    r = finish(x, A, info=dict(frames=[], errors=[repr(er)[:80] for er in errors]))
+    if relaxed:
+        # C10 (2): from every crash-shaped state a restarted server's sweep works and cleans up
+        A["C10.sweep_ok"] = And(A["C13.no_exception"], A["C13.no_internal_error"])
+        A["C10.sweep_cleans"] = And(A["C13.swept"], A.get("C13.empty", T))
+    r = finish(x, A, info=dict(frames=[], errors=[repr(er)[:80] for er in errors]), inv=not relaxed)
     return r
 
 
